@@ -3,6 +3,7 @@ package model
 import (
 	"fmt"
 	"go/types"
+	"strings"
 
 	"github.com/reedom/convergen/pkg/option"
 	"github.com/reedom/convergen/pkg/util"
@@ -262,6 +263,10 @@ func NewTypecast(scope *types.Scope, imports util.ImportNames, t types.Type, inn
 		return nil, false
 	}
 
+	if util.IsPtr(t) {
+		// A conversion to a pointer type must be parenthesized: (*T)(x).
+		expr = "(*" + strings.TrimPrefix(expr, "*") + ")"
+	}
 	return TypecastEntry{inner: inner, typ: t, expr: expr}, true
 }
 
